@@ -490,7 +490,12 @@ fn check_cut(out: &mut Out, d: &Desc, what: &str, a: usize, b: usize, got: &str,
             }
         }
         None => {
-            let is_err = got == "E:utf8" || (allow_null && got == "null");
+            if allow_null && got == "null" {
+                // the unpacking instructions turn the refused cut into null instead of raising the error
+                out.attributed.push(("F-C15-9".into(), format!("{} [{},{}) cuts a character: null instead of an error", what, a, b)));
+                return;
+            }
+            let is_err = got == "E:utf8";
             if !is_err {
                 let raw = if a <= b && b <= s.len() { Some(format!("s{}", hex(&s.as_bytes()[a..b]))) } else { None };
                 if d.is_full() && raw.as_deref() == Some(got) {
@@ -524,6 +529,93 @@ impl Ctx {
                             out.d_fail.push(("input-form".into(), format!("constructed string differs: {:?}", str_bytes(&sv))));
                         }
                         self.exec_str_op(op, &toks, &d, sv, &mut out)
+                    }
+                }
+            }
+            "apiwb" => {
+                // the public Rust API: KString::from(buffer).with_bounds(pre..pre+len) re-sliced with every a..b
+                let d = Desc::parse(toks[1]).expect("desc");
+                let hi: usize = toks[2].parse().unwrap();
+                out.nontrivial = d.s().chars().count() >= 1;
+                if let Desc::Slice { pre, s, post } = &d {
+                    let buf = format!("{}{}{}", "x".repeat(*pre), s, post);
+                    let base = KString::from(buf.as_str()).with_bounds(*pre..*pre + s.len());
+                    match base {
+                        None => "E:base".to_string(),
+                        Some(base) => {
+                            let mut rs = vec![];
+                            for a in 0..=hi {
+                                for b in 0..=hi {
+                                    let r = kvh::catch(|| base.with_bounds(a..b));
+                                    match r {
+                                        Err(p) => {
+                                            out.panic = Some(format!("with_bounds({}..{}): {}", a, b, p));
+                                            rs.push("PANIC".to_string());
+                                        }
+                                        Ok(None) => {
+                                            if a <= b && s.get(a..b).is_some() {
+                                                out.d_fail.push(("api:with_bounds-refused".into(), format!("{}..{} is a sub-string but was refused", a, b)));
+                                            }
+                                            rs.push("none".into());
+                                        }
+                                        Ok(Some(t)) => {
+                                            let bytes = t.as_str().as_bytes().to_vec();
+                                            if std::str::from_utf8(&bytes).is_err() {
+                                                out.invalid.push(bytes.clone());
+                                            }
+                                            let want = if a <= b { s.get(a..b) } else { None };
+                                            if want.map(|w| w.as_bytes()) != Some(bytes.as_slice()) {
+                                                if b > s.len() && a <= b && buf.get(*pre + a..*pre + b).map(|w| w.as_bytes()) == Some(bytes.as_slice()) {
+                                                    out.attributed.push(("F-C15-10".into(), format!("with_bounds({}..{}) beyond the string's own end ({}) returned bytes of the shared buffer", a, b, s.len())));
+                                                } else {
+                                                    out.d_fail.push(("api:with_bounds".into(), format!("{}..{} returned {}", a, b, hex(&bytes))));
+                                                }
+                                            }
+                                            rs.push(format!("s{}", hex(&bytes)));
+                                        }
+                                    }
+                                }
+                            }
+                            rs.join(" ")
+                        }
+                    }
+                } else {
+                    "SKIP".to_string()
+                }
+            }
+            "fmtf" => {
+                let opts = String::from_utf8(unhex(toks[1]).unwrap()).unwrap();
+                out.nontrivial = !opts.is_empty();
+                let bits = u64::from_str_radix(toks[2].trim_start_matches('f'), 16).unwrap();
+                let v = f64::from_bits(bits);
+                match self.rt.fmt_fn(&opts) {
+                    Err(e) => {
+                        if e.starts_with("PANIC") {
+                            out.panic = Some(e);
+                            "PANIC".to_string()
+                        } else {
+                            "SKIP".to_string()
+                        }
+                    }
+                    Ok(f) => {
+                        let val: KValue = v.into();
+                        match self.rt.callv(f, &[val.clone()]) {
+                            Err(e) => {
+                                if e.starts_with("PANIC") {
+                                    out.panic = Some(e.clone());
+                                }
+                                fail_line(&e)
+                            }
+                            Ok(r) => {
+                                let _ = canon(&r, &mut out.invalid);
+                                if let (Ok(Ok((fo, fill))), Some(res)) = (Self::real_parse_opts(&opts), str_bytes(&r)) {
+                                    if let Ok(res) = String::from_utf8(res) {
+                                        self.check_width(&opts, &fo, fill.as_deref(), &val, &res, &mut out);
+                                    }
+                                }
+                                "F".to_string()
+                            }
+                        }
                     }
                 }
             }
@@ -712,6 +804,16 @@ impl Ctx {
                                         }
                                     }
                                 }
+                            }
+                        } else if l == "E:utf8" {
+                            // (repaired code) the whole call fails: right iff some requested cut is not a sub-string
+                            let cuts: Vec<(usize, usize)> = match op {
+                                "unpx" => (0..n).map(|i| (i, i + 1)).collect(),
+                                "unph" => (0..k.min(n)).map(|i| (i, i + 1)).chain(std::iter::once((k.min(n), n))).collect(),
+                                _ => std::iter::once((0, n.saturating_sub(k))).chain((n.saturating_sub(k)..n).map(|i| (i, i + 1))).collect(),
+                            };
+                            if cuts.iter().all(|(a, b)| s.get(*a..*b).is_some()) {
+                                out.d_fail.push(("unpack:error".into(), "UTF-8 error although every requested cut is a sub-string".into()));
                             }
                         } else if l == "E:size" {
                             let ok = match op {
@@ -1129,6 +1231,27 @@ impl Ctx {
                     } else {
                         "Other"
                     };
+                    // (D) a first grapheme cluster directly followed by an alignment character is a fill
+                    // (language guide; the lexer delimits the options the same way)
+                    let mut gs = opts.graphemes(true);
+                    if let (Some(fill), Some("<" | "^" | ">")) = (gs.next(), gs.next()) {
+                        let rest = &opts[fill.len() + 1..];
+                        // the rest must be a width / precision / representation part on its own
+                        let rest_ok = match Self::real_parse_opts(rest) {
+                            Ok(Ok((f, fl))) => {
+                                f.alignment == StringAlignment::Default
+                                    && (fl.is_none() || (fl.as_deref() == Some("0") && rest.starts_with('0')))
+                            }
+                            _ => false,
+                        };
+                        if kind == "UnexpectedToken" && rest_ok {
+                            if fill.chars().count() > 1 {
+                                out.attributed.push(("F-C15-8".into(), format!("fill cluster {:?} followed by an alignment character is rejected", fill)));
+                            } else {
+                                out.d_fail.push(("fmtspec:fill-rejected".into(), format!("single-character fill {:?} + alignment rejected", fill)));
+                            }
+                        }
+                    }
                     format!("E:fmt:{}", kind)
                 } else {
                     "SKIP".into()
@@ -1237,6 +1360,27 @@ impl Ctx {
             Ok(KValue::Str(s)) => s.as_str().to_string(),
             _ => return,
         };
+        if let KValue::Number(KNumber::F64(v)) = val {
+            // (D) floats: `?`, `e`, `E` (documented for numbers in general) must keep the value: the text
+            // parses back to exactly the float. Radix representations are documented for integers only.
+            use koto_parser::StringFormatRepresentation::*;
+            if let Some(r @ (Debug | ExpLower | ExpUpper)) = fo.representation {
+                let back = rendered.parse::<f64>().ok();
+                if back != Some(*v) && !(v.is_nan() && back.is_some_and(|b| b.is_nan())) {
+                    let i = *v as i64;
+                    let truncated = match r {
+                        Debug => format!("{i:?}"),
+                        ExpLower => format!("{i:e}"),
+                        _ => format!("{i:E}"),
+                    };
+                    if rendered == truncated {
+                        out.attributed.push(("F-C15-7".into(), format!("options {:?}: float {:?} rendered as the truncated integer {:?}", opts, v, rendered)));
+                    } else {
+                        out.d_fail.push(("format:float-value".into(), format!("options {:?}: float {:?} rendered as {:?}", opts, v, rendered)));
+                    }
+                }
+            }
+        }
         let glen = rendered.graphemes(true).count();
         let fill = fill.unwrap_or(" ");
         let missing = min_width.saturating_sub(glen);
@@ -1450,6 +1594,9 @@ fn string_requests(d: &Desc, full_set: bool, out: &mut Vec<String>) {
         out.push(format!("unph {} {}", dt, k));
         out.push(format!("unpt {} {}", dt, k));
     }
+    if let Desc::Slice { post, .. } = d {
+        out.push(format!("apiwb {} {}", dt, s.len() + post.len() + 1));
+    }
     out.push(format!("chars {} {}", dt, g));
     out.push(format!("rchars {} {}", dt, g));
     out.push(format!("cidx {} {}", dt, g));
@@ -1495,7 +1642,7 @@ fn fmt_grid(thorough: bool) -> Vec<String> {
         }
     }
     if thorough {
-        for extra in ["X", "E", "\u{301}<4", "a\u{301}^5", "😀>3", "0<4", "<<4", "^^5", ">>3", ".<4", "07.1", "007", "12", "10", ">10.3?"] {
+        for extra in ["X", "E", "x\u{304}^7", "e\u{301}<4", "5\u{304}^7", "?\u{301}>3", "\u{301}<4", "a\u{301}^5", "😀>3", "0<4", "<<4", "^^5", ">>3", ".<4", "07.1", "007", "12", "10", ">10.3?"] {
             v.push(extra.to_string());
         }
     }
@@ -1812,6 +1959,12 @@ fn main() {
                 tabs.push_str(&format!(" {} {}", gtab(&s), gtab(&format!("'{}'", s))));
             }
             cx.push(format!("fmt {} {} {}", hex(o.as_bytes()), v, tabs));
+        }
+    }
+    // floats: representation options must keep the value (never compared as text: parse-back oracle)
+    for o in ["", "?", "e", "E", "x", "b", "o", "8?", "*^12e", ">10E", "06?", ".2", ".0", "9.3"] {
+        for v in [1.5f64, 2.75, -0.5, 1234.5, 0.1, 2.0, -3.0, 1e21, -1e21, 1e-7, 123456789.125, f64::INFINITY, f64::NAN] {
+            cx.push(format!("fmtf {} f{:016x} {}", hex(o.as_bytes()), v.to_bits(), gtab(o)));
         }
     }
     cx.phase("format-apply");
